@@ -64,7 +64,7 @@ Theorem comments_attached_once_in_order_nopragma raw :
   attached (read_peek_stream raw) = all_comments raw.
 Proof. intros H P. rewrite comments_attached_once_in_order by exact H. apply visible_no_pragma, P. Qed.
 
-(* the full-strength statement (EVERY comment token of the source is attached) is false: a comment
+(* a fact about ReadPeek, not a demand of C02: not EVERY comment token of the source is attached - a comment
    inside `pragma ... ;` is read and thrown away with the rest of the pragma.  The witness is the
    token stream of  `pragma optional_param /* c */ x;`  (replayed on the real parser by checks/c02.py) *)
 Definition tk (t : ttype) (i : N) : token := Tok t [] i.
